@@ -654,7 +654,7 @@ pub fn run(sim: &Sim, prop: &str, tier: Tier) -> Outcome {
                 for (id, h) in model.live.iter() {
                     if !fired_own.contains(&h.token) {
                         let id = *id;
-                        if seen_own.contains(&h.token) {
+                        if prop == "C17" && seen_own.contains(&h.token) {
                             return fail(
                                 prop,
                                 "C17.keep",
@@ -689,7 +689,7 @@ pub fn run(sim: &Sim, prop: &str, tier: Tier) -> Outcome {
                             ),
                         };
                     }
-                    if h.capture_all && !fired_foreign.contains(&h.token) && seen_foreign.contains(&h.token) {
+                    if prop == "C17" && h.capture_all && !fired_foreign.contains(&h.token) && seen_foreign.contains(&h.token) {
                         return fail(
                             prop,
                             "C17.keep",
